@@ -36,7 +36,7 @@ Viol(o) == IF HasF(o.o, "timeout") THEN {"timeout"}
 Known(s) == \A i \in 1..Len(s) : s[i] \in Alphabet
 FoldDrift(o) == LET m == FoldN(J2LN(o.c.v)) r == o.o.fold IN
                 IF m.r # r.r /\ r.r # "panic" THEN {"fold-model-verdict"}
-                ELSE IF m.r = "ok" /\ r.r = "ok" /\ m.v # J2N(r.v) THEN {"fold-model-value"} ELSE {}
+                ELSE IF m.r = "ok" /\ r.r = "ok" /\ MaskN(m.v, m.v) # MaskN(J2N(r.v), m.v) THEN {"fold-model-value"} ELSE {}
 Drift(o) == IF o.c.op = "fold_any" THEN (IF HasF(o.o, "timeout") \/ HasF(o.o, "build") THEN {} ELSE FoldDrift(o))
             ELSE IF o.c.op # "parse_any" \/ HasF(o.o, "timeout") \/ Prop = "C12" \/ ~Known(Chars(o.o.s)) THEN {}
             ELSE IF Prop = "C05" THEN
@@ -48,7 +48,7 @@ Drift(o) == IF o.c.op = "fold_any" THEN (IF HasF(o.o, "timeout") \/ HasF(o.o, "b
                        ELSE IF m.r = "ok" /\ r.r = "ok" /\ m.v # J2L(r.v) THEN {"lexical-term-model-value"} ELSE {})
             ELSE LET m == Parse(Chars(o.o.s)) r == o.o.narsese IN
                  IF m.r # r.r /\ r.r # "panic" THEN {"model-verdict"}
-                 ELSE IF m.r = "ok" /\ r.r = "ok" /\ m.v # J2N(r.v) THEN {"model-value"} ELSE {}
+                 ELSE IF m.r = "ok" /\ r.r = "ok" /\ MaskN(m.v, m.v) # MaskN(J2N(r.v), m.v) THEN {"model-value"} ELSE {}
 
 Init == l = 1
 Next == /\ l <= Len(Obs)
